@@ -83,6 +83,26 @@ end
 def closeAcceptanceRate {α : Type} [Div α] [OfScientific α] (toα : Nat → α) (accepted completed : Nat) : α :=
   if completed = 0 then 0.0 else toα accepted / toα completed
 
+/-! ### the evaluation limiter (EvaluationLimiter_ClassConstructor)
+
+  A target wrapper that counts evaluations (a gradient counts `gcount`) and raises KeyboardInterrupt
+  at the first call made after the budget `limit` was exceeded — resetting the counter, so that the
+  next run starts with a fresh budget. `limit = 0` switches the interrupt off. -/
+
+inductive LimCall where
+  | misfit | gradient
+deriving DecidableEq, Repr
+
+/-- one call: the new counter, and whether the call raised instead of evaluating -/
+def limStep (limit gcount : Nat) (c : Nat) (k : LimCall) : Nat × Bool :=
+  if limit ≠ 0 ∧ limit < c then (0, true)
+  else (c + (match k with | .misfit => 1 | .gradient => gcount), false)
+
+/-- a sequence of calls: counter after each call and which calls raised -/
+def limRun (limit gcount : Nat) : Nat → List LimCall → List (Nat × Bool)
+  | _, [] => []
+  | c, k :: rest => let r := limStep limit gcount c k; r :: limRun limit gcount r.1 rest
+
 /-! ### sampler objects that are used for several runs
 
   `sample()` builds its run state in `_init_sampler` from the call's arguments and the object's
